@@ -1745,6 +1745,9 @@ class UserSpaceImpl(*_user_space_impl_base):
         if not is_valid_name(name):
             raise ValueError("Invalid name '%s'" % name)
 
+        if name in self.named_spaces:
+            raise ValueError("Space named '%s' already exists" % name)
+
         if name in self.namespace:
             if name in self.refs:
                 if name in self.own_refs:
